@@ -33,6 +33,9 @@ def make_sig(rng, shape=None):
     else:
         r = rng.randbytes(32)
         s = rng.randbytes(32)
+    if shape in ("normal", "short", "long") and len(s) >= 2 and rng.random() < 0.1:
+        # an s that ends like a status word (it is data all the same)
+        s = s[:-2] + rng.choice([b"\x90\x00", b"\x90\x00", b"\x6a\x87", b"\x00\x00"])
     body = b"\x02" + bytes([len(r)]) + r + b"\x02" + bytes([len(s)]) + s
     first = 0x31 if shape == "x31" else 0x30
     sig = bytes([first, len(body)]) + body
